@@ -274,6 +274,8 @@ def drive_embed(ctx, tier, pool=None):
 def name_tuples(params, maxlen, include_posonly=False, dup=False):
     cand = [p[0] for p in params if p[1] in (PK, KO) or (include_posonly and p[1] == PO)]
     cand.append(oracle.FOREIGN)
+    # a keyword spelled like the *args / **kwargs parameter itself is an ordinary foreign keyword (**kwargs takes it)
+    cand.extend(p[0] for p in params if p[1] in (VA, VK))
     out = [()]
     for r in range(1, maxlen + 1):
         out.extend(itertools.permutations(cand, r))
